@@ -320,7 +320,8 @@ def sweep_generic_rules(ctx, anchored_modules):
     from ..rules.idioms import (check_shared_mutable, check_narrowing_cast,
                                 check_inplace_float_store,
                                 check_abs_of_extremum)
-    from ..rules.capacity import check_index_dtype
+    from ..rules.capacity import (check_index_dtype, check_borrowed_dtype,
+                                  check_sum_capacity)
     from ..rules.h5names import check_h5_names_created_once
     from ..rules.perm import check_sorted_results_unsorted
     n = 0
@@ -343,6 +344,8 @@ def sweep_generic_rules(ctx, anchored_modules):
                 n += check_zip_alignment(ctx, fi)
                 n += check_shared_mutable(ctx, fi)
                 n += check_index_dtype(ctx, fi)
+                n += check_borrowed_dtype(ctx, fi)
+                n += check_sum_capacity(ctx, fi)
                 n += check_sorted_results_unsorted(ctx, fi)
                 n += check_narrowing_cast(ctx, fi)
                 n += check_inplace_float_store(ctx, fi)
